@@ -57,6 +57,9 @@ def run(ctx, anchors=None):
     E = {c["n"]: c["v"] for c in en["consts"]}
     # ---- R07.1
     goc = fb.fn("GetOpCode", file="debugger/script.cpp")
+
+    from . import common as _cm
+    _cm.require_names(goc, ["name"], "R07.1")
     rows = {}
     for n in goc.nodes():
         if n["k"] != "if":
@@ -227,6 +230,8 @@ def run(ctx, anchors=None):
     writer = writer[0]
     judge = fb.fn("CheckMinimalPush", file="script/script.cpp")
     reader = fb.fn("GetScriptOp", file="script/script.cpp")
+    _cm.require_names(reader, ["opcode", "pc", "nSize"], "R07.2")
+    _cm.require_names(judge, ["data", "opcode"], "R07.2")
 
     def is_size_of(param):
         def pred(e):
@@ -310,6 +315,7 @@ def run(ctx, anchors=None):
 
     # ---- R07.3
     pi = fb.fn("CScript::push_int64")
+    _cm.require_names(pi, ["n"], "R07.3")
     heads = [n for n in pi.nodes() if n["k"] == "if" and not (pi.parent(n) is not None and pi.parent(n).get("k") == "if" and pi.parent(n).get("else") is n)]
     arms = chain_arms(pi, heads[0]) if heads else []
     ok3 = False
